@@ -13,7 +13,7 @@ Fixed finding F47: `Syllable::try_from(u16)` accepted every non-zero value ("TOD
 (spelling `""`) or `0x8208` / `0x020e` (the spelling of `0x0208`); since the repair it accepts exactly the codes of the
 tuples with `t ≤ 5` (`decode_total_iff`), so that every accepted code converts back from its components and its
 spelling (`accepted_roundtrip`; the tone value 5 of F18 is the one exception, `accepted_roundtrip_full_refuted`), and
-`validCode` is an invariant of the type (`parse_valid`, `update_valid`).
+`validCode` is an invariant of the type (`parse_valid`, `update_valid`, `remove_valid`, `pop_valid`).
 
 Known finding F18: the first-tone mark `ˉ` (code point 713) is accepted by the parser and stored
 as tone value 5, which no accessor decodes; `spell_parse` therefore carries `NoTone1`, and
@@ -223,6 +223,13 @@ theorem parse_valid {s : List Nat} {v : Nat} (hp : parse s = .ok v) : v < 65536 
 /-- … and `update` (every keyboard layout) maps accepted codes to accepted codes and never panics on them -/
 theorem update_valid {c b : Nat} (hc : c < 65536) (hv : validCode c = true) (hb : b < 42) :
     ∃ v, update c b = some v ∧ v < 65536 ∧ validCode v = true := Chewing.update_valid hc hv hb
+
+/-- … and so do the four removers and `pop` -/
+theorem remove_valid {c : Nat} (k : Nat) (hc : c < 65536) (hv : validCode c = true) :
+    removeKind k c < 65536 ∧ validCode (removeKind k c) = true := removeKind_valid k hc hv
+
+theorem pop_valid {c : Nat} (hc : c < 65536) (hv : validCode c = true) :
+    (pop c).2 < 65536 ∧ validCode (pop c).2 = true := Chewing.pop_valid hc hv
 
 /-- `chewing_phone_to_bopomofo`: a rejected value is answered with -1 and nothing is written; the text written for an
     accepted one parses back to the value -/
